@@ -42,4 +42,23 @@ Relation(rows, out) ==
     /\ \A i \in DOMAIN rows \ Enabled(rows) :
          /\ \A e \in DOMAIN out.entries : out.entries[e].n # rows[i].n \/ \E j \in Enabled(rows) : rows[j].n = rows[i].n
          /\ \A p \in DOMAIN out.struct : out.struct[p] # rows[i].name \/ \E j \in Enabled(rows) : rows[j].name = rows[i].name
+---------------------------------------------------------------------------
+(* Types sheet: every value row of every type yields exactly one constant  *)
+(* <Type><Value> = value of that Go type; the only other constant of the   *)
+(* type is <Type>Invalid = the base type's invalid value.  Names are       *)
+(* compared after normalisation (lower case, no underscores), values as    *)
+(* decimal strings.                                                        *)
+InvalidDec(b) == CASE b \in {0, 2, 13} -> "255" [] b = 1 -> "127" [] b = 3 -> "32767" [] b = 4 -> "65535"
+                   [] b = 5 -> "2147483647" [] b = 6 -> "4294967295" [] b \in {10, 11, 12, 16} -> "0"
+                   [] b = 14 -> "9223372036854775807" [] b \in {9, 15} -> "18446744073709551615" [] b = 8 -> "4294967295"
+                   [] OTHER -> "?"
+GoBits(b) == CASE b \in {0, 1, 2, 10, 13} -> 8 [] b \in {3, 4, 11} -> 16 [] b \in {5, 6, 12, 8} -> 32 [] OTHER -> 64
+
+\* t: [name, b, vals: << <<vname, value>> >>]; obs: [bits, consts: << <<name, value>> >>]
+TypeRelation(t, obs) ==
+    LET want == { << t.name \o t.vals[i][1], t.vals[i][2] >> : i \in DOMAIN t.vals } \cup { << t.name \o "invalid", InvalidDec(t.b) >> }
+        got  == { << obs.consts[i][1], obs.consts[i][2] >> : i \in DOMAIN obs.consts }
+    IN  /\ obs.bits = GoBits(t.b)
+        /\ want \subseteq got
+        /\ \A g \in got : g \in want \/ (\E w \in want : w[1] = g[1])   \* no constant the sheet does not list
 =============================================================================
